@@ -62,6 +62,7 @@ Definition dec_base (v : gval) : res wbase :=
   | GStr s => if is_atomic_type s then Ok (simple_base s) else Err EOther
   | GObj o =>
       ty <- f_string (obj_get o s_type) ;;
+      _ <- (if is_atomic_type ty then Ok tt else Err EOther) ;;   (* repaired: the object form names an atomic type too *)
       en <- dec_enum (obj_get o s_enum) ;;
       minR <- f_pfloat (obj_get o s_minReal) ;;
       maxR <- f_pfloat (obj_get o s_maxReal) ;;
@@ -100,7 +101,7 @@ Definition is_scalar (v : gval) : bool :=
   match v with GBool _ | GNum _ _ | GStr _ => true | _ => false end.
 Definition wf_enum (o : option (list gval)) : bool :=
   match o with None => true | Some [] => false | Some l => forallb is_scalar l end.
-Definition wf_base (b : wbase) : bool := wf_enum (wb_enum b).
+Definition wf_base (b : wbase) : bool := wf_enum (wb_enum b) && is_atomic_type (wb_type b).
 
 Definition base_is_simple (b : wbase) : bool :=
   is_atomic_type (wb_type b) &&
